@@ -1,6 +1,8 @@
 package conf
 
 import (
+	"strconv"
+
 	"code.cloudfoundry.org/bytefmt"
 
 	"github.com/bluenviron/mediamtx/internal/conf/jsonwrapper"
@@ -11,7 +13,32 @@ type StringSize uint64
 
 // MarshalJSON implements json.Marshaler.
 func (s StringSize) MarshalJSON() ([]byte, error) {
-	return []byte(`"` + bytefmt.ByteSize(uint64(s)) + `"`), nil
+	// use the largest unit that represents the size exactly,
+	// in order to obtain the same value when unmarshaling.
+	v := uint64(s)
+	unit := "B"
+
+	if v != 0 {
+		for _, u := range []struct {
+			size uint64
+			name string
+		}{
+			{bytefmt.EXABYTE, "E"},
+			{bytefmt.PETABYTE, "P"},
+			{bytefmt.TERABYTE, "T"},
+			{bytefmt.GIGABYTE, "G"},
+			{bytefmt.MEGABYTE, "M"},
+			{bytefmt.KILOBYTE, "K"},
+		} {
+			if (v % u.size) == 0 {
+				v /= u.size
+				unit = u.name
+				break
+			}
+		}
+	}
+
+	return []byte(`"` + strconv.FormatUint(v, 10) + unit + `"`), nil
 }
 
 // UnmarshalJSON implements json.Unmarshaler.
